@@ -26,6 +26,10 @@ Fields == << [name |-> "b", p |-> "int8", n |-> -5, d |-> 1], [name |-> "s", p |
              [name |-> "h", p |-> "float64", n |-> 8, d |-> 1],
              [name |-> "cf", p |-> "complexfloat32", n |-> 2, d |-> 1], [name |-> "cd", p |-> "complexfloat64", n |-> -3, d |-> 2] >>
 Idx(nm) == CHOOSE x \in 1..Len(Fields) : Fields[x].name = nm
+\* a second valuation: every field positive (integer division of non-negative operands is the same in every back end that is run
+\* here - floor and truncation agree - so inexact quotients can be compared too), quotients mostly inexact
+Pos2 == [b |-> 5, s |-> 12, i |-> 7, j |-> 3, k |-> 40, m |-> 6, g |-> 9, cd |-> 3]
+FN(v, x) == IF v = 2 /\ Fields[x].name \in DOMAIN Pos2 THEN Pos2[Fields[x].name] ELSE Fields[x].n
 IsUnsigned(p) == p \in {"uint8", "uint16", "uint32", "uint64", "size"}
 IsFloat(p) == p \in {"float32", "float64", "complexfloat32", "complexfloat64"}
 
@@ -71,13 +75,13 @@ RECURSIVE HasComplex(_)
 HasComplex(e) == CASE e.k = "field" -> Fields[e.i].p \in {"complexfloat32", "complexfloat64"} [] e.k = "lit" -> FALSE [] e.k = "neg" -> HasComplex(e.e)
                    [] e.k = "bin" -> HasComplex(e.l) \/ HasComplex(e.r)
 
-RECURSIVE Eval(_)
-Eval(e) ==
-  CASE e.k = "field" -> [n |-> Fields[e.i].n, d |-> Fields[e.i].d]
+RECURSIVE EvalV(_, _, _)
+EvalV(v, fl, e) ==
+  CASE e.k = "field" -> [n |-> FN(v, e.i), d |-> Fields[e.i].d]
     [] e.k = "lit" -> [n |-> e.n, d |-> 1]
-    [] e.k = "neg" -> LET x == Eval(e.e) IN IF x.d = 0 \/ (e.e.k = "field" /\ IsUnsigned(Fields[e.e.i].p)) THEN Undefined ELSE [n |-> -x.n, d |-> x.d]
+    [] e.k = "neg" -> LET x == EvalV(v, fl, e.e) IN IF x.d = 0 \/ (e.e.k = "field" /\ IsUnsigned(Fields[e.e.i].p)) THEN Undefined ELSE [n |-> -x.n, d |-> x.d]
     [] e.k = "bin" ->
-         LET a == Eval(e.l) b == Eval(e.r) IN
+         LET a == EvalV(v, fl, e.l) b == EvalV(v, fl, e.r) IN
          IF a.d = 0 \/ b.d = 0 THEN Undefined
          ELSE LET r == CASE e.op = "+" -> Red(a.n * b.d + b.n * a.d, a.d * b.d)
                          [] e.op = "-" -> Red(a.n * b.d - b.n * a.d, a.d * b.d)
@@ -85,16 +89,25 @@ Eval(e) ==
                          [] e.op = "/" -> IF b.n = 0 THEN Undefined
                                           ELSE IF Floaty(e.l) \/ Floaty(e.r)
                                                THEN (IF b.n < 0 THEN Red(-(a.n * b.d), a.d * (-b.n)) ELSE Red(a.n * b.d, a.d * b.n))
-                                               ELSE (IF Abs(a.n) % Abs(b.n) = 0 THEN [n |-> (IF (a.n < 0) = (b.n < 0) THEN 1 ELSE -1) * (Abs(a.n) \div Abs(b.n)), d |-> 1] ELSE Undefined)     \* integer division: exact only
+                                               ELSE (IF Abs(a.n) % Abs(b.n) = 0 THEN [n |-> (IF (a.n < 0) = (b.n < 0) THEN 1 ELSE -1) * (Abs(a.n) \div Abs(b.n)), d |-> 1]
+                                                     ELSE IF fl /\ a.n >= 0 /\ b.n > 0 THEN [n |-> a.n \div b.n, d |-> 1]      \* fl: inexact quotient of non-negative integers, rounded down
+                                                     ELSE Undefined)     \* integer division: exact, or (fl) of non-negative operands
                          [] e.op = "**" -> IF ~HasComplex(e) /\ b.d = 1 /\ b.n >= 0 /\ b.n <= 4 /\ Abs(a.n) <= 50
                                            THEN Red(IntPow(a.n, b.n), IntPow(a.d, b.n)) ELSE Undefined
               IN IF Small(r) THEN r ELSE Undefined
+
+Eval(e) == EvalV(1, FALSE, e)
 
 \* unsigned operands make differences and negations leave the operand type's range in C++: excluded from "in range"
 RECURSIVE UsesUnsigned(_)
 UsesUnsigned(e) == CASE e.k = "field" -> IsUnsigned(Fields[e.i].p) [] e.k = "lit" -> FALSE [] e.k = "neg" -> UsesUnsigned(e.e)
                      [] e.k = "bin" -> UsesUnsigned(e.l) \/ UsesUnsigned(e.r)
 InRange(e) == Eval(e).d # 0 /\ (UsesUnsigned(e) => Eval(e).n >= 0)
+InRangeV(v, fl, e) == EvalV(v, fl, e).d # 0 /\ (UsesUnsigned(e) => EvalV(v, fl, e).n >= 0)
+\* a top-level integer quotient that is inexact with a negative operand: C++ truncates, Python rounds down (the property has no
+\* mathematical value for it, only "the same in every language"); exported so that the harness can observe the two back ends
+SignDiv(e) == e.k = "bin" /\ e.op = "/" /\ ~Floaty(e.l) /\ ~Floaty(e.r) /\ ~UsesUnsigned(e) /\ e.l.k # "bin" /\ e.r.k # "bin"
+              /\ LET a == Eval(e.l) b == Eval(e.r) IN a.d = 1 /\ b.d = 1 /\ b.n # 0 /\ Abs(a.n) % Abs(b.n) # 0 /\ (a.n < 0 \/ b.n < 0)
 
 (***************************************************************************)
 (* Static types.  The documentation gives no promotion table (only "**    *)
@@ -141,9 +154,14 @@ ASSUME \A p \in { Fields[x].p : x \in 1..Len(Fields) }, q \in { Fields[x].p : x 
 Swap(e) == IF e.k = "bin" THEN Bin(e.op, e.r, e.l) ELSE e
 
 Exprs == Depth1 \cup Depth2
-ASSUME PrintT(<<"expressions", Cardinality(Exprs), "valued", Cardinality({ e \in Exprs : InRange(e) })>>)
+ASSUME PrintT(<<"expressions", Cardinality(Exprs), "valued", Cardinality({ e \in Exprs : InRange(e) }), "valued rounding down", Cardinality({ e \in Exprs : InRangeV(1, TRUE, e) }),
+               "valued under the positive valuation", Cardinality({ e \in Exprs : InRangeV(2, TRUE, e) }), "signed inexact quotients", Cardinality({ e \in Exprs : SignDiv(e) })>>)
 ASSUME ndJsonSerialize(IOEnv.VERIF_FIELDS, Fields)
-ASSUME ndJsonSerialize(IOEnv.VERIF_OUT, SetToSeq({ [e |-> e, defined |-> InRange(e), value |-> Eval(e), commutes |-> (e.k = "bin" /\ e.op \in {"+", "*"}), type |-> TypeOf(e),
+ASSUME ndJsonSerialize(IOEnv.VERIF_FIELDS2, [x \in 1..Len(Fields) |-> [Fields[x] EXCEPT !.n = FN(2, x)]])
+ASSUME ndJsonSerialize(IOEnv.VERIF_OUT, SetToSeq({ [e |-> e, defined |-> InRange(e), value |-> Eval(e),
+                                                       defined_floor |-> InRangeV(1, TRUE, e), value_floor |-> EvalV(1, TRUE, e),
+                                                       defined2 |-> InRangeV(2, TRUE, e), value2 |-> EvalV(2, TRUE, e), exact2 |-> InRangeV(2, FALSE, e),
+                                                       signdiv |-> SignDiv(e), commutes |-> (e.k = "bin" /\ e.op \in {"+", "*"}), type |-> TypeOf(e),
                                                        intpow |-> (e.k = "bin" /\ e.op = "**" /\ ~Floaty(e.l) /\ ~Floaty(e.r))]
                                                      : e \in Exprs }))
 =============================================================================
